@@ -35,6 +35,8 @@ type scenario struct {
 	LeadingSep bool     `json:"leadingSep"`
 	Kind       string   `json:"kind"`
 	Stem       string   `json:"stem"`
+	Ext        string   `json:"ext"`      // extension of a nested archive: zip | tar.gz | TAR.zip
+	RootName   string   `json:"rootName"` // the directory the model has it unpacked into
 	DestShape  string   `json:"destShape"`
 	Escapes    bool     `json:"escapes"`
 	// kind "linkchain" (ZipLinks.tla): targets of the chained symbolic-link entries
@@ -137,6 +139,8 @@ func buildLinkZip(chain [][]string, outsideAbs string) ([]byte, string) {
 }
 
 type runner struct {
+	ext     string // extension of the nested archive of the scenario in hand ("" = zip)
+	root    string // name of its unpacking directory according to the model ("" = the stem)
 	chain   [][]string
 	w       *hk.Writer
 	scratch string
@@ -176,7 +180,11 @@ func (r *runner) run(backend string, nameComps []string, leadingSep bool, sep, k
 			comps[len(comps)-1] += "\x1b(J\x1b(J\xff"
 		}
 		if kind == "nested" {
-			comps = append(comps, stem+".zip")
+			ext := r.ext
+			if ext == "" {
+				ext = "zip"
+			}
+			comps = append(comps, stem+"."+ext)
 		}
 		name = strings.Join(comps, sep)
 		if leadingSep {
@@ -230,6 +238,9 @@ func (r *runner) run(backend string, nameComps []string, leadingSep bool, sep, k
 				}
 			}
 		}
+	}
+	if kind == "nested" && r.root != "" {
+		stem = r.root // what the judge is given: the unpacking directory's name
 	}
 	r.w.Write(map[string]any{"ev": "Begin", "id": r.id, "backend": backend, "destAbs": destAbs, "dest": nonNil(destComps), "cwd": nonNil(cwdComps), "name": nonNil(nm),
 		"leadingSep": strings.HasPrefix(name, "/"), "kind": kind, "stem": stem, "sep": sep, "raw": fmt.Sprintf("%q", name)})
@@ -380,6 +391,7 @@ func replay(a *hk.Args) error {
 			}
 			continue
 		}
+		r.ext, r.root = sc.Ext, sc.RootName
 		if err := r.run("os", sc.Comps, sc.LeadingSep, sep, sc.Kind, sc.Stem, sc.DestShape, ""); err != nil {
 			return err
 		}
